@@ -174,14 +174,14 @@ class C10Machine(Machine):
         n = rng.randint(1, 4) if not cfg.get("large") else rng.choice([8, 15, 16, 17, 24, 31, 32, 33, 64, 65])
         if cfg.get("huge") and not self.entries:
             n = rng.choice([128, 129, 255, 256, 257, 258, 300])
-        recs = gen_valid_records(rng, cfg["curie_pool"], cfg["uri_pool"], n)
+        recs = gen_valid_records(rng, cfg["curie_pool"], cfg["uri_pool"], n, p_repeat=0.1)
         return {"op": "new", "out": self._fresh_id(), "records": recs, "delimiter": rng.choice(cfg["delimiters"]),
                 "container": rng.choice(tokens.CONTAINERS)}
 
     def _gen_chain(self, rng):
         k = rng.choice([1, 2, 2, 3, 4, 5])
         return {"op": "chain", "out": self._fresh_id(), "hs": [self._pick(rng) for _ in range(k)],
-                "case_sensitive": rng.random() < 0.7}
+                "case_sensitive": rng.random() < 0.7, "arg_shape": rng.choice(["list", "list", "tuple"])}
 
     def _gen_sub(self, rng):
         h = self._pick(rng)
@@ -195,7 +195,8 @@ class C10Machine(Machine):
             prefixes = [p for p in cands if rng.random() < density]
         if rng.random() < 0.3:
             prefixes.append(rng.choice(self.config["curie_pool"]))
-        return {"op": "sub", "out": self._fresh_id(), "h": h, "prefixes": prefixes}
+        return {"op": "sub", "out": self._fresh_id(), "h": h, "prefixes": prefixes,
+                "arg_shape": rng.choice(["list", "list", "tuple", "set", "generator", "dict_keys"])}
 
     def _gen_remap_curie(self, rng):
         cfg = self.config
@@ -291,7 +292,8 @@ class C10Machine(Machine):
             uris = []
         return {"op": "discover", "out": self._fresh_id(), "h": h, "uris": uris, "cutoff": rng.choice([None, None, 1, 2, 5]),
                 "metaprefix": rng.choice(["ns", "m"]),
-                "delimiters": rng.choice([None, None, ["/"], ["#", "_"], [":", "/"]])}
+                "delimiters": rng.choice([None, None, ["/"], ["#", "_"], [":", "/"]]),
+                "arg_shape": rng.choice(["list", "list", "set", "generator", "tuple"])}
 
     def _gen_mutate(self, rng, h):
         cfg = self.config
@@ -326,8 +328,12 @@ class C10Machine(Machine):
             n = rng.choice([2, 4, 8])
             rec["prefix_synonyms"] = rec["prefix_synonyms"] + [f"fs{self.steps}_{i}" for i in range(n)]
             rec["uri_prefix_synonyms"] = rec["uri_prefix_synonyms"] + [f"fs:{self.steps}/{i}/" for i in range(n)]
+        if rng.random() < 0.06:
+            side = "prefix_synonyms" if rng.random() < 0.5 else "uri_prefix_synonyms"
+            if rec[side]:
+                rec[side] = rec[side] + [rec[side][0]]        # a synonym repeated in its own record
         if kind == "add_record" and rng.random() < 0.4:
-            rec["pattern"] = rng.choice(["^\\d+$", "^[A-Z]+$"])      # only add_record can carry a pattern
+            rec["pattern"] = rng.choice(["^\\d+$", "^[A-Z]+$", ""])      # only add_record can carry a pattern
         return {"op": "mutate", "h": h, "kind": kind, "record": rec,
                 "case_sensitive": rng.random() < 0.8, "merge": rng.random() < cfg["p_merge"],
                 "omit_defaults": rng.random() < 0.5}
@@ -463,10 +469,14 @@ class C10Machine(Machine):
         result = None
         err = None
         try:
+            shape = op.get("arg_shape", "list")
             if kind == "chain":
-                result = c.chain(inputs, case_sensitive=op.get("case_sensitive", True))
+                result = c.chain(tuple(inputs) if shape != "list" else inputs, case_sensitive=op.get("case_sensitive", True))
             elif kind == "sub":
-                result = inputs[0].get_subconverter(list(op["prefixes"]))
+                pf = list(op["prefixes"])
+                arg = {"list": pf, "tuple": tuple(pf), "set": set(pf), "generator": (x for x in pf),
+                       "dict_keys": dict.fromkeys(pf).keys()}.get(shape, pf)
+                result = inputs[0].get_subconverter(arg)
             elif kind == "remap_curie":
                 result = reconciliation.remap_curie_prefixes(inputs[0], {k: v for k, v in op["mapping"]})
             elif kind == "remap_uri":
@@ -475,7 +485,9 @@ class C10Machine(Machine):
                 result = reconciliation.rewire(inputs[0], {k: v for k, v in op["mapping"]})
             elif kind == "discover":
                 dkw = {"delimiters": op["delimiters"]} if op.get("delimiters") else {}
-                result = discovery.discover(list(op["uris"]), cutoff=op.get("cutoff"),
+                uris = list(op["uris"])
+                uarg = {"set": set(uris), "generator": (u for u in uris), "tuple": tuple(uris)}.get(op.get("arg_shape"), uris)
+                result = discovery.discover(uarg, cutoff=op.get("cutoff"),
                                             metaprefix=op.get("metaprefix", "ns"), converter=inputs[0], **dkw)
             else:
                 raise ValueError(kind)
